@@ -143,6 +143,28 @@ def register(reg):
 
 
 # ================================================================================================ (1) constructors
+# operands of the constructor contracts: one real node of EVERY proposition class (built by the real constructors over atoms)
+CHILD_SHAPES = [
+    ("atom", "p"),
+    ("always", ("atom", "p")),
+    ("eventually", ("atom", "p")),
+    ("next", ("atom", "p")),
+    ("not", ("atom", "p")),
+    ("and", ("atom", "p"), ("atom", "q")),
+    ("or", ("atom", "p"), ("atom", "q")),
+    ("until", ("atom", "p"), ("atom", "q")),
+    ("implies", ("atom", "p"), ("atom", "q")),
+]
+CHILD_NAMES = ["Atomic"] + [SCENIC_CLASS[f[0]] for f in CHILD_SHAPES[1:]]
+
+
+def real_child(I, k, counter):
+    """a real proposition node of class CHILD_NAMES[k] (real constructors, all callees interpreted)"""
+    closures = {"p": Opaque("closure_p"), "q": Opaque("closure_q")}
+    with driver_frame(I, BUILD, module=P):
+        return build_scenic(I, CHILD_SHAPES[k], closures, counter)
+
+
 def register_constructors(reg):
     def node_stub(tag):
         o = PObj("PropositionNodeStub", tag=tag)
@@ -157,35 +179,43 @@ def register_constructors(reg):
         import rv_ltl
         import scenic.core.propositions as sp
 
-        class N:
-            def __init__(self, t):
-                self.ltl_node = rv_ltl.Atomic(identifier=t)
+        def kid(k, counter):
+            return real_scenic(CHILD_SHAPES[k], {"p": (lambda: True), "q": (lambda: False)}, counter)
 
-        x, y, z = N("x"), N("y"), N("z")
-        checks = [
-            ("Always", sp.Always(x), rv_ltl.Always, dict(op=x)),
-            ("Eventually", sp.Eventually(x), rv_ltl.Eventually, dict(op=x)),
-            ("Next", sp.Next(x), rv_ltl.Next, dict(op=x)),
-            ("Not", sp.Not(x), rv_ltl.Not, dict(op=x)),
-            ("Until", sp.Until(x, y), rv_ltl.Until, dict(lhs=x, rhs=y)),
-            ("Implies", sp.Implies(x, y), rv_ltl.Implies, dict(lhs=x, rhs=y)),
-            ("And", sp.And([x, y, z]), rv_ltl.And, dict(ops=(x, y, z))),
-            ("Or", sp.Or([x, y, z]), rv_ltl.Or, dict(ops=(x, y, z))),
-        ]
-        for name, node, want, flds in checks:
+        nK = len(CHILD_SHAPES)
+        given = [CHILD_NAMES.index(inputs[p]) for p in ("req", "lhs", "rhs") if inputs.get(p) in CHILD_NAMES]
+        unary = dict(Always=rv_ltl.Always, Eventually=rv_ltl.Eventually, Next=rv_ltl.Next, Not=rv_ltl.Not)
+        binary = dict(Until=rv_ltl.Until, Implies=rv_ltl.Implies)
+        nary = dict(And=rv_ltl.And, Or=rv_ltl.Or)
+        for name in list(unary) + list(binary) + list(nary):
             if only is not None and name != only:
                 continue
-            if type(node.ltl_node) is not want:
-                return f"propositions.{name} builds an rv_ltl.{type(node.ltl_node).__name__} node (expected rv_ltl.{want.__name__})"
-            for k, v in flds.items():
-                got = getattr(node.ltl_node, k)
-                if isinstance(v, tuple):
-                    if len(got) != len(v) or any(g is not w.ltl_node for g, w in zip(got, v)):
-                        return f"propositions.{name}: operands of the rv_ltl node are not the operands' nodes in source order"
-                elif got is not v.ltl_node:
-                    return f"propositions.{name}: rv_ltl node field `{k}` is not the node of the corresponding operand (operands swapped?)"
-            if node.is_temporal != (name in TEMPORAL_CLASSES):
-                return f"propositions.{name}.is_temporal == {node.is_temporal}"
+            cls = getattr(sp, name)
+            if name in unary:
+                combos = [(k,) for k in (given[:1] + list(range(nK)))]
+            elif name in binary:
+                combos = ([tuple(given[:2])] if len(given) >= 2 else []) + [(i, j) for i in range(nK) for j in range(nK)]
+            else:
+                combos = [tuple((s0 + j) % nK for j in range(n)) for n in (1, 2, 3) for s0 in range(nK)]
+            want = {**unary, **binary, **nary}[name]
+            for combo in combos:
+                counter = [0]
+                kids = [kid(k, counter) for k in combo]
+                own = [c.ltl_node for c in kids]
+                node = cls(kids) if name in nary else cls(*kids)
+                desc = f"propositions.{name}({', '.join(CHILD_NAMES[k] + '(...)' for k in combo)})"
+                if type(node.ltl_node) is not want:
+                    return f"{desc} builds an rv_ltl.{type(node.ltl_node).__name__} node (expected rv_ltl.{want.__name__} applied to the operands' own nodes)"
+                got = list(node.ltl_node.ops) if name in nary else [node.ltl_node.op] if name in unary else [node.ltl_node.lhs, node.ltl_node.rhs]
+                if len(got) != len(own) or any(g is not w for g, w in zip(got, own)):
+                    return f"{desc}: the operands of the rv_ltl node are not the operands' own rv_ltl nodes in source order"
+                if any(c.ltl_node is not w for c, w in zip(kids, own)):
+                    return f"{desc} replaced the rv_ltl node of an operand"
+                kept = list(node.reqs) if name in nary else [node.req] if name in unary else [node.lhs, node.rhs]
+                if len(kept) != len(kids) or any(x is not y for x, y in zip(kept, kids)):
+                    return f"{desc}: the Scenic tree does not keep the operands as children"
+                if node.is_temporal != (name in TEMPORAL_CLASSES):
+                    return f"propositions.{name}.is_temporal == {node.is_temporal}"
         if only not in (None, "Atomic"):
             return None
         a = sp.Atomic(lambda: True, 7)
@@ -198,12 +228,21 @@ def register_constructors(reg):
         cn = short_of(tgt)
 
         def setup(I, env):
+            eng = I.eng
             env.vars["self"] = PObj(repo_class(f"{P}:{name}"), tag="self")
-            for p in params:
-                env.vars[p] = node_stub(p)
+            counter = [0]
+            for p in params:  # every operand ranges over every proposition node class
+                k = eng.choose(len(CHILD_SHAPES), f"class of {p}")
+                eng.input_syms.append((p, C.Const(CHILD_NAMES[k]), CHILD_NAMES[k]))
+                env.vars[p] = real_child(I, k, counter)
             if name in ("And", "Or"):
-                n = I.eng.choose(3, "operands") + 1
-                env.vars["reqs"] = PList([node_stub(f"req{k}") for k in range(n)])
+                n = eng.choose(3, "operands") + 1
+                start = eng.choose(len(CHILD_SHAPES), "class of the first operand")
+                ks = [(start + j) % len(CHILD_SHAPES) for j in range(n)]
+                eng.input_syms.append(("reqs", C.Const([CHILD_NAMES[k] for k in ks]), [CHILD_NAMES[k] for k in ks]))
+                env.vars["reqs"] = PList([real_child(I, k, counter) for k in ks])
+            # the operands' own rv_ltl nodes, as they are BEFORE the constructor runs
+            env.vars["_own"] = {id(c): c.fields["ltl_node"] for c in ([env.vars[p] for p in params] + (env.vars["reqs"].items if name in ("And", "Or") else []))}
 
         def post(I, env, outcome):
             eng = I.eng
@@ -214,20 +253,23 @@ def register_constructors(reg):
             eng.check(f"{cn}#ensures.builds_the_rv_ltl_node_of_the_same_operator", isinstance(node, PObj) and cls_name(node) == f"{LTL}:{name}")
             if not isinstance(node, PObj):
                 return
+            own = env.vars["_own"]
+            kids = [env.vars[p] for p in params] + (env.vars["reqs"].items if name in ("And", "Or") else [])
+            eng.check(f"{cn}#ensures.operands_keep_their_own_rv_ltl_nodes", all(c.fields.get("ltl_node") is own[id(c)] for c in kids))
             if name in ("And", "Or"):
-                want = [r.fields["ltl_node"] for r in env.vars["reqs"].items]
+                want = [own[id(r)] for r in env.vars["reqs"].items]
                 got = node.fields.get("ops")
                 eng.check(f"{cn}#ensures.operands_in_source_order", isinstance(got, tuple) and len(got) == len(want) and all(g is w for g, w in zip(got, want)))
                 kept = self.fields.get("reqs")
                 eng.check(f"{cn}#ensures.children_are_the_operands", kept is env.vars["reqs"] or (isinstance(kept, PList) and all(a is b for a, b in zip(kept.items, env.vars["reqs"].items)) and len(kept.items) == len(want)))
             else:
-                for p, lf in zip(params, ltl_fields):
-                    eng.check(f"{cn}#ensures.operands_in_source_order", node.fields.get(lf) is env.vars[p].fields["ltl_node"])
+                for p, lf in zip(params, ltl_fields):  # the operator applied to the operands' OWN nodes (identity), in source order
+                    eng.check(f"{cn}#ensures.operands_in_source_order", node.fields.get(lf) is own[id(env.vars[p])])
                 for p, of in zip(params, operand_fields):
                     eng.check(f"{cn}#ensures.children_are_the_operands", self.fields.get(of) is env.vars[p])
             eng.check(f"{cn}#ensures.is_temporal_iff_temporal_operator", self.fields.get("is_temporal") is (name in TEMPORAL_CLASSES))
 
-        reg.add(C.Contract(tgt, params={p: C.Const(None) for p in ["self"] + (["reqs"] if name in ("And", "Or") else params)}, setup=setup, post=post, inline_all=True, replay=replay_ctor_for(name), properties=("C11",)))
+        reg.add(C.Contract(tgt, params={p: C.Const(None) for p in ["self"] + (["reqs"] if name in ("And", "Or") else params)}, setup=setup, post=post, inline_all=True, env=STR_ENV, replay=replay_ctor_for(name), bounded=name in ("And", "Or"), note="every operand is a real node of each of the 9 proposition classes (Atomic, Always, Eventually, Next, Not, And, Or, Until, Implies)" + ("; 1..3 operands of consecutive classes" if name in ("And", "Or") else ""), properties=("C11",)))
 
     for nm in ("Always", "Eventually", "Next", "Not"):
         make(nm, ["req"], ["req"], ["op"])
@@ -467,6 +509,12 @@ SEM_FORMULAS = [
     ("always", ("implies", ("atom", "a"), ("next", ("atom", "b")))),
     ("implies", ("always", ("atom", "a")), ("eventually", ("atom", "b"))),
     ("until", ("not", ("atom", "a")), ("and", ("atom", "a"), ("atom", "b"))),
+    # negated temporal operators: the verdict in the LAST state separates strong from weak next / until
+    ("not", ("next", ("atom", "a"))),
+    ("not", ("always", ("atom", "a"))),
+    ("not", ("eventually", ("atom", "a"))),
+    ("not", ("until", ("atom", "a"), ("atom", "b"))),
+    ("always", ("implies", ("atom", "a"), ("not", ("next", ("atom", "b"))))),
 ]
 
 
